@@ -14,6 +14,7 @@ import (
 	"reduction.dev/reduction/proto"
 	"reduction.dev/reduction/util/murmur"
 	"reduction.dev/reduction/workers/operator"
+	"reduction.dev/reduction/workers/sourcerunner"
 	"verif.local/mc/mc"
 	"verif.local/mc/report"
 )
@@ -102,7 +103,7 @@ var refHash = func() []uint32 {
 type gparams struct{ gs []int }
 
 func Run(k *report.Check) {
-	k.Rule = "configurations: every key-group count g in the stated set x operator counts n (quick: all g<=256 x all n<=g+3; thorough: all g<=2048 x 16 characteristic n, plus 160 large g up to 65535): ranges contiguous, disjoint, cover [0,g), sizes differ by at most one, RangeIndex of every group = the range containing it, and the real OperatorPartition owns exactly the groups of its range. Keys: every byte string of length <=2 and every string of length 3..9 over {00,'k',ff} (every murmur tail length and block count): KeyGroup = reference MurmurHash3-32(seed 0) mod g (reference anchored by published vectors), and the two-byte prefix that the real KeyedStateStore and TimerStore persist in a real dkv.DB equals it. non-trivial = distinct (g,n) with n not dividing g or n>g, and distinct keys of length >=3"
+	k.Rule = "configurations: every key-group count g in the stated set x operator counts n (quick: all g<=256 x all n<=g+3; thorough: all g<=2048 x 16 characteristic n, plus 160 large g up to 65535): ranges contiguous, disjoint, cover [0,g), sizes differ by at most one, RangeIndex of every group = the range containing it, and the real OperatorPartition owns exactly the groups of its range. Keys: every byte string of length <=2 and every string of length 3..9 over {00,'k',ff} (every murmur tail length and block count): KeyGroup = reference MurmurHash3-32(seed 0) mod g (reference anchored by published vectors), and the two-byte prefix that the real KeyedStateStore and TimerStore persist in a real dkv.DB equals it. Router: the source runner's real operatorCluster.routeEvent with one key per key group for g in {1..40,255,256,257,1000} x n<=min(g+2,9) delivers to the operator whose range contains the group. non-trivial = distinct (g,n) with n not dividing g or n>g, and distinct keys of length >=3"
 	k.Assumptions = []string{"'every key byte string' and 'every g up to 65535 with every n' are not enumerable; the stated sets are the claim", "in-situ routing (which operator's handler receives a key) is asserted by C04's oracle with the same reference function"}
 	k.Budget(100, 900)
 	k.Explore("murmur-vectors", mc.Config{Workers: 1}, nil, vectorsBody)
@@ -126,6 +127,7 @@ func Run(k *report.Check) {
 	}
 	k.Explore("ranges", mc.Config{}, gparams{gs}, rangesBody)
 	k.Explore("keygroup", mc.Config{}, gparams{gs}, keyGroupBody)
+	k.Explore("source-runner-router", mc.Config{}, nil, routerBody)
 	k.Explore("persisted-prefix", mc.Config{}, nil, prefixBody)
 }
 
@@ -306,4 +308,74 @@ func prefixBody(c *mc.Ctx) {
 		c.Failf("g=%d: %d persisted entries for %d subject keys (state + timer each)", g, n, len(want))
 	}
 	c.Nontrivial(fmt.Sprint(g, chunk))
+}
+
+
+// routerBody: the source runner's real router (operatorCluster.routeEvent over real batching
+// operators, recording operators behind them) must hand a key to the operator whose key-group
+// range - as the operators themselves compute it at deploy (KeySpace.KeyGroupRanges) and as the
+// harness's own arithmetic has it - contains the key's group: one key per key group, for
+// g in {1..40, 255, 256, 257, 1000} and every operator count up to min(g+2, 9).
+var routerGs = func() []int {
+	var gs []int
+	for g := 1; g <= 40; g++ {
+		gs = append(gs, g)
+	}
+	return append(gs, 255, 256, 257, 1000)
+}()
+
+// keyPerGroup finds, for every key group of a g-group key space, a key that falls into it.
+func keyPerGroup(g int) [][]byte {
+	out := make([][]byte, g)
+	found := 0
+	for i := 0; found < g; i++ {
+		k := []byte(fmt.Sprintf("r%d", i))
+		kg := int(refMurmur3(k, 0) % uint32(g))
+		if out[kg] == nil {
+			out[kg] = k
+			found++
+		}
+	}
+	return out
+}
+
+func routerBody(c *mc.Ctx) {
+	g := routerGs[c.Choose(len(routerGs))]
+	n := 1 + c.Choose(min(g+2, 9))
+	c.Op("g=%d n=%d", g, n)
+	r := sourcerunner.VerifNewRouter(g, n)
+	defer r.Close()
+	deployed := partitioning.NewKeySpace(g, n).KeyGroupRanges()
+	for kg, key := range keyPerGroup(g) {
+		got := r.Route(key)
+		want := refOwner(kg, g, n)
+		if got != want {
+			c.FailSig("router-misroutes", "g=%d n=%d: key %q (group %d) is routed to operator %d, its group belongs to operator %d", g, n, key, kg, got, want)
+		}
+		if !deployed[got].IncludesKeyGroup(partitioning.KeyGroup(kg)) {
+			c.FailSig("router-disagrees-with-operator-range", "g=%d n=%d: key %q (group %d) is routed to operator %d, whose deployed range is %v", g, n, key, kg, got, deployed[got])
+		}
+	}
+	if g%n != 0 {
+		c.Nontrivial(fmt.Sprint("route", g, n))
+	}
+}
+
+
+// refOwner: ranges of size floor(g/n), the first g mod n ranges one larger (the harness's own
+// arithmetic for "sizes differ by at most one, larger ranges first").
+func refOwner(kg, g, n int) int {
+	base, extra := g/n, g%n
+	start := 0
+	for i := 0; i < n; i++ {
+		size := base
+		if i < extra {
+			size++
+		}
+		if kg < start+size {
+			return i
+		}
+		start += size
+	}
+	return n - 1
 }
